@@ -107,6 +107,9 @@ def _worker(prop_name: str, tier: str, wseed: int, n_examples: int, excluded: Li
     from hypothesis import HealthCheck, Phase, given, seed, settings
 
     try:
+        from . import kc as _kc
+
+        _kc._TMP_ROOT = None  # never share (or delete) the parent's scratch directory
         prop = importlib.import_module(f"vk.props.{prop_name.lower()}")
         strat = prop.strategy(tier)
         t0 = time.time()
@@ -326,6 +329,13 @@ def run_property(prop_id: str, tier: str, workers: Optional[int], examples: Opti
                     known_reproduced[v.sig] = known_reproduced.get(v.sig, 0) + 1
                 else:
                     violations.append({"signature": v.sig, "case": case, "violation": v.to_json(), "source": f"corpus/{prop_id}/{fn}"})
+
+    try:
+        from . import kc as _kc
+
+        _kc.cleanup_tmp_root()
+    except Exception:
+        pass
 
     # 2) generated campaign
     ctx = mp.get_context("fork")
